@@ -23,7 +23,16 @@ def obligations(tier):
             nds = {8: [3], 16: [5], 32: [10], 64: [19, 20]}[bits] if q else {8: [1, 3, 4], 16: [5, 6], 32: [10, 11], 64: [19, 20, 21]}[bits]
             for nd in nds:
                 for neg in (False, True):
-                    L.append(ob("intA/bits=%d/signed=%d/neg=%d/digits=%d" % (bits, signed, neg, nd), ".", "VerifC10IntA", [bits, signed, neg, nd, ""], covers=["refused"], timeout_ms=60000, max_seconds=600))
+                    lim = (1 << (bits - 1)) - (0 if neg else 1) if signed else (0 if neg else (1 << bits) - 1)
+                    cov = []
+                    if 10 ** nd - 1 > lim:
+                        cov.append("refused")
+                    if 10 ** (nd - 1) <= lim or (nd == 1):
+                        cov.append("accepted")
+                    if not signed and neg:
+                        cov = ["refused"]
+                    kw = {"solver": "cvc5-int"} if nd >= 10 else {}
+                    L.append(ob("intA/bits=%d/signed=%d/neg=%d/digits=%d" % (bits, signed, neg, nd), ".", "VerifC10IntA", [bits, signed, neg, nd, ""], covers=cov, timeout_ms=60000, max_seconds=600, **kw))
     for bits, signed, tail in ((8, True, ".0"), (64, False, "e0"), (16, True, ".5")):
         L.append(ob("intA/bits=%d/signed=%d/tail=%s" % (bits, signed, tail), ".", "VerifC10IntA", [bits, signed, False, 1, tail], covers=["refused"], max_seconds=600))
     for signed in (True, False):
